@@ -307,3 +307,94 @@ func (l *l4list) BadL4insert(key uint16) {
 	prev.next = n
 	cur.prev = n
 }
+
+// BadI3Range passes a negotiated stream through unwrapped when its id is the last valid one (>= for >).
+type BadI3Range struct {
+	interceptor.NoOp
+	next uint32
+}
+
+func (g *BadI3Range) BindLocalStream(info *interceptor.StreamInfo, w interceptor.RTPWriter) interceptor.RTPWriter {
+	var id uint8
+	for _, e := range info.RTPHeaderExtensions {
+		if e.URI == fxTransportCCURI {
+			id = uint8(e.ID)
+			break
+		}
+	}
+	if id == 0 || id >= 14 {
+		return w
+	}
+	return interceptor.RTPWriterFunc(func(h *rtp.Header, p []byte, a interceptor.Attributes) (int, error) {
+		seq := atomic.AddUint32(&g.next, 1) - 1
+		if err := h.SetExtension(id, []byte{byte(seq >> 8), byte(seq)}); err != nil {
+			return 0, err
+		}
+		return w.Write(h, p, a)
+	})
+}
+
+// ---- L5 ---------------------------------------------------------------------------------------------------------------
+
+// GoodL5remove compares the head first; the scan then starts at the head with a trailing pointer that is not used in
+// the first iteration (the head cannot match again), and is the predecessor from then on.
+func (l *l4list) GoodL5remove(key uint16) bool {
+	if l.head == nil {
+		return false
+	}
+	if l.head.key == key {
+		l.head = l.head.next
+		return true
+	}
+	cur := l.head
+	prev := l.head.prev
+	for cur != nil {
+		if cur.key == key {
+			prev.next = cur.next
+			return true
+		}
+		prev = cur
+		cur = cur.next
+	}
+	return false
+}
+
+// GoodL5removeFrom starts behind the head with the head as the trailing pointer.
+func (l *l4list) GoodL5removeFrom(key uint16) bool {
+	if l.head == nil {
+		return false
+	}
+	prev := l.head
+	cur := l.head.next
+	for cur != nil {
+		if cur.key == key {
+			prev.next = cur.next
+			return true
+		}
+		prev = cur
+		cur = cur.next
+	}
+	return false
+}
+
+// BadL5remove resumes the scan at the second node but keeps the old seed of the trailing pointer.
+func (l *l4list) BadL5remove(key uint16) bool {
+	if l.head == nil {
+		return false
+	}
+	if l.head.key == key {
+		l.head = l.head.next
+		return true
+	}
+	cur := l.head.next
+	prev := l.head.prev
+	for cur != nil {
+		if cur.key == key {
+			prev.next = cur.next
+			return true
+		}
+		prev = cur
+		cur = cur.next
+	}
+	return false
+}
